@@ -303,6 +303,7 @@ class C06Client(Episode):
         w = self.world
         c = self.case['client']
         T = c['timeout']
+        w.ctx.client_lag = c.get('lag', 0.0)
         if c['kind'] == 'sync':
             cl = circus.client.CircusClient(context=w.ctx,
                                             endpoint='tcp://sim:5555',
@@ -499,7 +500,7 @@ class C06Client(Episode):
                           '%s call timed out %.4f s after the last frame, '
                           'timeout is %s' % (kind, t1 - ref, T), once=cid,
                           client=kind)
-            if t1 > ref + T + 0.05:
+            if t1 > ref + T + 0.05 + self.case['client'].get('lag', 0.0):
                 self.viol('client_timeout_too_late',
                           '%s call timed out %.4f s after the last frame, '
                           'timeout is %s' % (kind, t1 - ref, T), once=cid,
@@ -596,9 +597,13 @@ class C06(Prop):
             if rng.random() < 0.3:
                 call['gap'] = rng.choice([0.1, 1.0, 3.0])
             calls.append(call)
+        kind = rng.choice(['sync', 'async'])
+        # a caller that is scheduled late after its poll was woken: frames
+        # queue up in its socket (synchronous client only)
+        lag = rng.choice([0.0, 0.0, 0.0, 0.02, 0.3])
         return {'cfg': cfg, 'ops': [], 'kind': 'client',
-                'client': {'kind': rng.choice(['sync', 'async']),
-                           'timeout': T, 'calls': calls}}
+                'client': {'kind': kind, 'timeout': T, 'calls': calls,
+                           'lag': lag}}
 
     def run(self, case):
         if case.get('kind') == 'client':
